@@ -187,6 +187,116 @@ fn record_stats(st: &Stats, inst: &Instance, tally: &mut Tally) {
     }
 }
 
+// ------------------------------------------------------------------------------------------
+// coverage-guided stage
+// ------------------------------------------------------------------------------------------
+
+/// Entry point of the libFuzzer target `c04_paragraph` (harness/vfuzz). Line 1 holds comma separated integers: tolerance,
+/// \linepenalty, \hyphenpenalty, \exhyphenpenalty, \adjdemerits, \doublehyphendemerits, \finalhyphendemerits,
+/// \looseness, emergency stretch (sp), then one to four line widths (sp); the rest is a horizontal list in the Box
+/// language (parsed by the repository's own parser). The instance goes through `check_instance`, the oracle of every
+/// generated phase (the independent model decides feasibility and the optimum, the online trace check follows the
+/// breaker's own log); lists outside the quantifier are skipped there.
+pub fn fuzz_one(data: &[u8], obs: &mut Obs) {
+    let Ok(text) = std::str::from_utf8(data) else {
+        return;
+    };
+    let Some((header, body)) = text.split_once('\n') else {
+        return;
+    };
+    let nums: Vec<i64> = header.split(',').map(|t| t.trim().parse::<i64>().unwrap_or(0)).collect();
+    let n = |i: usize, lo: i64, hi: i64, default: i64| -> i32 { nums.get(i).copied().unwrap_or(default).clamp(lo, hi) as i32 };
+    let Ok(list) = boxworks::lang::parse_horizontal_list(body) else {
+        return;
+    };
+    if list.is_empty() || list.len() > 60 {
+        return;
+    }
+    // a discretionary replaces nodes that exist and are not themselves discretionaries (no list TeX builds is otherwise;
+    // the generators of the other phases keep to that as well)
+    for (i, e) in list.iter().enumerate() {
+        if let ds::Horizontal::Discretionary(d) = e {
+            let r = d.replace_count as usize;
+            if i + r >= list.len() + usize::from(r == 0) || list[i + 1..=i + r].iter().any(|x| matches!(x, ds::Horizontal::Discretionary(_))) {
+                obs.skip("fuzz:discretionary-replaces-missing-nodes-or-another-discretionary");
+                return;
+            }
+        }
+    }
+    let mut params = kp::Params::plain_tex_defaults();
+    params.line_penalty = n(1, -10000, 10000, 10);
+    params.hyphen_penalty = n(2, -30000, 30000, 50);
+    params.ex_hyphen_penalty = n(3, -30000, 30000, 50);
+    params.adj_demerits = n(4, -2_000_000, 2_000_000, 10000);
+    params.double_hyphen_demerits = n(5, -2_000_000, 2_000_000, 10000);
+    params.final_hyphen_demerits = n(6, -2_000_000, 2_000_000, 5000);
+    params.looseness = n(7, -3, 3, 0);
+    let mut widths: Vec<Scaled> = (9..13).filter(|i| nums.len() > *i).map(|i| Scaled(n(i, 65536, 400 * 65536, 100 * 65536))).collect();
+    if widths.is_empty() {
+        widths.push(Scaled(100 * 65536));
+    }
+    let inst = Instance { list, params, widths, tolerance: n(0, -1, 10000, 200), emergency: Scaled(n(8, 0, 20 * 65536, 0)) };
+    let mut tally = Tally::default();
+    check_instance(&inst, &SynthFont, obs, &mut tally, false);
+    tally.flush(obs);
+}
+
+/// Seed corpus (generated instances of all four styles, printed in the Box language) and dictionary.
+pub fn fuzz_seeds() -> vcore::fuzzglue::Seeds {
+    use boxworks::lang::convert::ToBoxLang;
+    use std::fmt::Write;
+    let mut inputs = vec![];
+    for k in 0..200u64 {
+        let mut rng = Rng::new(0xC04 + k);
+        let style = [Style::Clean, Style::Hostile, Style::Soup, Style::Grid][(k % 4) as usize];
+        let mut inst = gen::rand_instance(&mut rng, style);
+        inst.list.truncate(40);
+        // the cut must not separate a discretionary from the nodes it replaces
+        while let Some(i) = inst.list.iter().rposition(|e| matches!(e, ds::Horizontal::Discretionary(_))) {
+            let r = match &inst.list[i] {
+                ds::Horizontal::Discretionary(d) => d.replace_count as usize,
+                _ => 0,
+            };
+            if i + r < inst.list.len() {
+                break;
+            }
+            inst.list.truncate(i);
+        }
+        let mut body = String::new();
+        let printed = catch(|| {
+            let mut s = String::new();
+            for e in inst.list.clone().to_box_lang() {
+                let _ = write!(&mut s, "{e}");
+            }
+            s
+        });
+        match printed {
+            Ok(s) => body.push_str(&s),
+            Err(_) => continue,
+        }
+        let p = &inst.params;
+        let mut header = format!(
+            "{},{},{},{},{},{},{},{},{}",
+            inst.tolerance, p.line_penalty, p.hyphen_penalty, p.ex_hyphen_penalty, p.adj_demerits, p.double_hyphen_demerits,
+            p.final_hyphen_demerits, p.looseness, inst.emergency.0
+        );
+        for w in &inst.widths {
+            header.push_str(&format!(",{}", w.0));
+        }
+        if body.len() <= 3500 {
+            inputs.push(format!("{header}\n{body}").into_bytes());
+        }
+    }
+    let dictionary = [
+        "glue(", "kern(", "penalty(", "chars(\"", "disc(", "pre_break=[", "post_break=[", "replace_count=", "hbox(", "math(", "font=", "plus", "minus", "fil", "fill",
+        "filll", "pt", "-10000", "10000", "9999", ",", ")", "\n", "0pt", "1sp",
+    ]
+    .iter()
+    .map(|s| s.to_string())
+    .collect();
+    vcore::fuzzglue::Seeds { inputs, dictionary }
+}
+
 /// Check one instance with an arbitrary font repository. Returns true if it was judged (not skipped).
 pub fn check_instance<F: boxworks::FontRepo>(inst: &Instance, font: &F, obs: &mut Obs, tally: &mut Tally, in_known_phase: bool) -> bool {
     let items = match to_items(&inst.list, font) {
